@@ -48,6 +48,16 @@ pub struct LogEntry {
 
 thread_local! {
     static RLOG: RefCell<Vec<LogEntry>> = const { RefCell::new(Vec::new()) };
+    /// what an accepting module answers: 0 = no data, 1 = present-but-empty data, 2 = data and an event
+    static RET: std::cell::Cell<u8> = const { std::cell::Cell::new(0) };
+}
+
+fn ret_data(ret: u8) -> Option<Vec<u8>> {
+    match ret {
+        1 => Some(vec![]),
+        2 => Some(b"ret".to_vec()),
+        _ => None,
+    }
 }
 
 fn rlog(slot: &'static str, op: &'static str, sender: &str, payload: String) {
@@ -90,7 +100,15 @@ where
         mark(storage, self.slot);
         match self.mode {
             Mode::Default => self.inner.execute(api, storage, router, block, sender, msg),
-            Mode::Accept => AcceptingModule::<I::ExecT, I::QueryT, I::SudoT>::new().execute(api, storage, router, block, sender, msg),
+            Mode::Accept => {
+                let mut r = AcceptingModule::<I::ExecT, I::QueryT, I::SudoT>::new().execute(api, storage, router, block, sender, msg)?;
+                let ret = RET.with(|c| c.get());
+                r.data = ret_data(ret).map(Binary::from);
+                if ret == 2 {
+                    r.events.push(cosmwasm_std::Event::new("modev").add_attribute("k", "v"));
+                }
+                Ok(r)
+            }
             Mode::Fail => FailingModule::<I::ExecT, I::QueryT, I::SudoT>::new().execute(api, storage, router, block, sender, msg),
         }
     }
@@ -287,6 +305,9 @@ pub enum Via {
 
 #[derive(Clone, Debug, Serialize, Deserialize)]
 pub struct Case {
+    /// answer of an accepting module (see `RET`): must reach the caller / the reply unchanged
+    #[serde(default)]
+    pub ret: u8,
     /// the emitting contract first calls *itself* with funds attached: the transfer of the attached
     /// funds is a bank message like any other (sender = recipient) and must reach the bank module
     #[serde(default)]
@@ -629,13 +650,17 @@ impl RoutingCheck {
                     WasmMsg::Execute { contract_addr: chain[0].to_string(), msg: to_json_binary(&PMsg { n: 0 }).unwrap(), funds: vec![] }.into()
                 };
                 let sudo_target = chain.first().cloned();
+                RET.with(|c| c.set(case.ret % 3));
+                let top_data: RefCell<Option<(Option<Vec<u8>>, Vec<cosmwasm_std::Event>)>> = RefCell::new(None);
                 let res = catch(|| {
                     if via == Via::Sudo {
                         app.wasm_sudo(sudo_target.unwrap(), &PMsg { n: 0 }).map(|_| ()).map_err(|e| e.to_string())
                     } else {
-                        app.execute(user, top).map(|_| ()).map_err(|e| e.to_string())
+                        app.execute(user, top).map(|r| *top_data.borrow_mut() = Some((r.data.map(|d| d.to_vec()), r.events))).map_err(|e| e.to_string())
                     }
                 });
+                RET.with(|c| c.set(0));
+                let top_data = top_data.into_inner();
                 let (trace, _) = take_trace();
                 let log = take_rlog();
                 let res = match res {
@@ -724,6 +749,17 @@ impl RoutingCheck {
                     let leaked = after.iter().any(|(key, _)| key.starts_with(b"\x00\x07recmark") && key.ends_with(eslot.as_bytes()));
                     ensure!(!leaked, "C17:failed-module-left-state", "{:?}: failing {} module's write survived although the failure was caught by reply", k, eslot);
                 }
+                // --- the module's answer is what the caller sees
+                let answering = ok && mode == Mode::Accept && slot != 6;
+                if answering && chain.is_empty() {
+                    let want = ret_data(case.ret % 3);
+                    let got = top_data.as_ref().map(|t| t.0.clone()).unwrap_or(None);
+                    ensure!(got == want, "C17:module-answer-altered", "{:?} from the user: the module answered data {:?}, the caller received {:?}", k, want, got);
+                    if case.ret % 3 == 2 {
+                        ensure!(top_data.as_ref().map_or(false, |t| t.1.iter().any(|e| e.ty == "modev")), "C17:module-answer-altered", "{:?} from the user: the module's event did not reach the caller", k);
+                    }
+                    cx.label("exec:module-answer-checked");
+                }
                 // --- replies
                 if !chain.is_empty() {
                     let replies: Vec<&crate::engines::tree::puppet::TraceEntry> = trace.iter().filter(|e| e.kind == Kind::Reply && e.reply.as_ref().map_or(true, |r| r.id != 8)).collect();
@@ -736,6 +772,15 @@ impl RoutingCheck {
                     let _ = due;
                     if let Some(r) = replies.first() {
                         ensure!(r.reply.as_ref().map(|x| (x.ok, x.id, x.payload.as_slice())) == Some((ok, 7, &b"pl"[..])) && r.contract == emitter.as_str(), "C17:reply-content", "{:?}: reply {:?} at {}", k, r.reply, r.contract);
+                        if answering {
+                            let want = ret_data(case.ret % 3);
+                            let got = r.reply.as_ref().and_then(|x| x.data.clone());
+                            ensure!(got == want, "C17:module-answer-altered", "{:?} from {:?}: the module answered data {:?}, the reply was handed {:?}", k, case.origin, want, got);
+                            if case.ret % 3 == 2 {
+                                ensure!(r.reply.as_ref().map_or(false, |x| x.events.iter().any(|e| e.ty == "modev")), "C17:module-answer-altered", "{:?} from {:?}: the module's event did not reach the reply", k, case.origin);
+                            }
+                            cx.label("exec:module-answer-checked");
+                        }
                     }
                     let entered: Vec<&str> = trace.iter().filter(|e| matches!(e.kind, Kind::Execute | Kind::Migrate | Kind::Sudo)).map(|e| e.contract.as_str()).collect();
                     let mut want: Vec<&str> = chain.iter().map(|a| a.as_str()).collect();
@@ -779,6 +824,8 @@ impl RoutingCheck {
                             let m: CosmosMsg<XMsg> = WasmMsg::Execute { contract_addr: chain[i + 1].to_string(), msg: to_json_binary(&PMsg { n: i + 1 }).unwrap(), funds: vec![] }.into();
                             n.subs.push(SubMsg { id: 1, payload: Binary::default(), msg: m, gas_limit: None, reply_on: ReplyOn::Never });
                         } else {
+                            // the same request twice from one entry point: both must be routed
+                            n.queries.push(raw.clone());
                             n.queries.push(raw.clone());
                         }
                         nodes.insert(i, n);
@@ -794,10 +841,9 @@ impl RoutingCheck {
                         Ok(Err(e)) => fail!("C17:query-broke-transaction", "query {:?} from a contract made the transaction fail: {}", q, e),
                         Err(p) => fail!(crate::util::panic_sig(&p), "query {:?} from a contract panicked: {}", q, p),
                     }
-                    match trace.last().and_then(|e| e.queries.first().cloned()) {
-                        Some(a) => a,
-                        None => fail!("C17:call-chain", "the querying contract never ran"),
-                    }
+                    let answers = trace.last().map(|e| e.queries.clone()).unwrap_or_default();
+                    ensure!(answers.len() == 2 && answers[0] == answers[1], "C17:query-result", "query {:?} asked twice from one entry point was answered {:?}", q, answers);
+                    answers[0].clone()
                 };
                 let log = take_rlog();
                 // own-balance probes of the puppets go to the bank slot; ignore those
@@ -806,8 +852,9 @@ impl RoutingCheck {
                 ensure!(wasm_hops == chain.len(), "C17:wasm-module-bypassed", "query {:?} from {:?}: the configured wasm module saw {} of {} calls of the chain", q, case.origin, wasm_hops, chain.len());
                 let rest: Vec<&LogEntry> = log.iter().filter(|e| !probes(e) && e.slot != "wasm").collect();
                 let hits = rest.iter().filter(|e| e.slot == SLOTS[slot] && e.op == eop && e.payload == epayload).count();
-                ensure!(hits == 1, "C17:query-not-delivered", "query {:?} from {:?}: {} deliveries to {} (log {:?})", q, case.origin, hits, SLOTS[slot], rest);
-                ensure!(rest.len() == 1, "C17:other-module-called", "query {:?} from {:?}: other module calls: {:?}", q, case.origin, rest);
+                let asked = if chain.is_empty() { 1 } else { 2 };
+                ensure!(hits == asked, "C17:query-not-delivered", "query {:?} from {:?}: asked {} time(s), {} deliveries to {} (log {:?})", q, case.origin, asked, hits, SLOTS[slot], rest);
+                ensure!(rest.len() == asked, "C17:other-module-called", "query {:?} from {:?}: other module calls: {:?}", q, case.origin, rest);
                 ensure!(answer.is_ok() == ok, "C17:query-result", "query {:?} with {:?} module: caller got {:?}", q, mode, answer);
                 let after = scan(b.app.storage());
                 if chain.is_empty() {
@@ -858,7 +905,7 @@ impl Check for RoutingCheck {
         Spec {
             id: "C17",
             level: "exploration",
-            rule: "generated: a mode (crate's real keeper/default, crate's accepting module, crate's failing module) for each of the seven router slots, a message (16 kinds over bank, custom, staking, distribution, ibc, gov, stargate, any) or query (9 kinds) or sudo with generated payload, an entry point of the emitting contract (execute, migrate, sudo, or the reply to a helper call that succeeded or failed), an origin (top level; chain of 1-3 contracts written for the chain's message type; chain of 1-3 Empty-typed contracts lifted by ContractWrapper), a reply_on mode, an optional earlier sibling write, an optional earlier call of the contract to itself with funds attached (the transfer must reach the bank slot) and an optional earlier sibling that fails uncaught (then nothing may be delivered); oracle: exactly one log entry, in the slot configured for that kind, with the dispatching contract/user as sender and the payload intact, no other module called, caller sees Ok iff the module accepted (or the failure is caught by reply), failed calls leave root storage byte-identical including the marker the module wrote before failing. The cross product {kind} x {origin} x {mode} x {Never, Always} is enumerated in every run. Non-trivial: a non-bank kind from depth>=1, or the lifted origin, or a failing module after a sibling write, or a query from inside a contract; distinct = distinct serialised case",
+            rule: "generated: a mode (crate's real keeper/default, crate's accepting module, crate's failing module) for each of the seven router slots, a message (16 kinds over bank, custom, staking, distribution, ibc, gov, stargate, any) or query (9 kinds) or sudo with generated payload, an entry point of the emitting contract (execute, migrate, sudo, or the reply to a helper call that succeeded or failed), an origin (top level; chain of 1-3 contracts written for the chain's message type; chain of 1-3 Empty-typed contracts lifted by ContractWrapper), a reply_on mode, an optional earlier sibling write, an optional earlier call of the contract to itself with funds attached (the transfer must reach the bank slot) and an optional earlier sibling that fails uncaught (then nothing may be delivered); oracle: exactly one log entry, in the slot configured for that kind, with the dispatching contract/user as sender and the payload intact, no other module called, caller sees Ok iff the module accepted (or the failure is caught by reply), the data and events an accepting module answers (none / present-but-empty / bytes plus an event) reach the caller or the reply unchanged, failed calls leave root storage byte-identical including the marker the module wrote before failing. The cross product {kind} x {origin} x {mode} x {Never, Always} is enumerated in every run. Non-trivial: a non-bank kind from depth>=1, or the lifted origin, or a failing module after a sibling write, or a query from inside a contract; distinct = distinct serialised case",
             assumptions: vec![
                 "with a real keeper in a slot only requests that keeper supports are sent (delegate, set-withdraw-address, bank send/burn by funded senders)",
                 "CosmosMsg::Custom cannot be emitted by an Empty-typed contract (excluded for the lifted origin)",
@@ -900,7 +947,7 @@ impl Check for RoutingCheck {
             2 => Via::Sudo,
             _ => Via::Reply,
         };
-        Case { self_funded: g.chance(1, 4), before_fails: g.chance(1, 6), trigger_fails: g.bool(), via, modes, origin, depth: 1 + g.below(3) as u8, what, reply_on, sibling: g.bool() }
+        Case { ret: g.below(3) as u8, self_funded: g.chance(1, 4), before_fails: g.chance(1, 6), trigger_fails: g.bool(), via, modes, origin, depth: 1 + g.below(3) as u8, what, reply_on, sibling: g.bool() }
     }
 
     fn execute(&self, case: &Case, cx: &mut Cx) -> Result<(), Failure> {
@@ -920,7 +967,7 @@ impl Check for RoutingCheck {
                         let mut modes = vec![Mode::Default; 7];
                         modes[slot_of(k)] = mode;
                         for via in [Via::Execute, Via::Migrate, Via::Sudo, Via::Reply] {
-                            out.push(Case { self_funded: via == Via::Execute && reply_on == RO::Never, before_fails: false, trigger_fails: reply_on == RO::Always, via, modes: modes.clone(), origin, depth: 1, what: What::Exec(k.clone()), reply_on, sibling: reply_on == RO::Never });
+                            out.push(Case { ret: (out.len() % 3) as u8, self_funded: via == Via::Execute && reply_on == RO::Never, before_fails: false, trigger_fails: reply_on == RO::Always, via, modes: modes.clone(), origin, depth: 1, what: What::Exec(k.clone()), reply_on, sibling: reply_on == RO::Never });
                         }
                     }
                 }
@@ -930,7 +977,7 @@ impl Check for RoutingCheck {
         for q in &queries {
             for origin in [Origin::Top, Origin::Puppet, Origin::Lifted] {
                 for mode in [Mode::Default, Mode::Accept, Mode::Fail] {
-                    out.push(Case { self_funded: false, before_fails: false, trigger_fails: false, via: Via::Execute, modes: vec![mode; 7], origin, depth: 2, what: What::Query(q.clone()), reply_on: RO::Never, sibling: false });
+                    out.push(Case { ret: 0, self_funded: false, before_fails: false, trigger_fails: false, via: Via::Execute, modes: vec![mode; 7], origin, depth: 2, what: What::Query(q.clone()), reply_on: RO::Never, sibling: false });
                 }
             }
         }
@@ -971,6 +1018,11 @@ impl Check for RoutingCheck {
         if case.self_funded {
             let mut c = case.clone();
             c.self_funded = false;
+            out.push(c);
+        }
+        if case.ret != 0 {
+            let mut c = case.clone();
+            c.ret = 0;
             out.push(c);
         }
         for i in 0..7 {
